@@ -119,7 +119,7 @@ var ribInits = map[string][]string{
 
 var c02Letters = []string{
 	"ADD nh1@D a", "DELETE nh1@D", "ADD nh2@D", "DELETE nh2@D", "ADD nh1@V",
-	"ADD nhg1@D {1}", "ADD nhg1@D {1,2}", "REPLACE nhg1@D {2}", "DELETE nhg1@D", "ADD nhg2@D {2}", "ADD nhg1@V {1}",
+	"ADD nhg1@D {1}", "ADD nhg1@D {1,2}", "REPLACE nhg1@D {2}", "DELETE nhg1@D", "ADD nhg2@D {2}", "ADD nhg2@D {2} backup 1", "ADD nhg1@V {1}",
 	"ADD v4 p@D ->1", "ADD v4 p@D ->1@V", "REPLACE v4 p@D ->2", "DELETE v4 p@D",
 	"ADD v6 q@D ->1", "ADD v6 q@D ->1@V", "DELETE v6 q@D", "ADD mpls 100@D ->1", "ADD mpls 100@D ->1@V", "DELETE mpls 100@D", "FLUSH all",
 	"ADD nhg3@D {0}", "ADD nhg3@D {}", "ADD v4 s@D ->0", "ADD v4 s@D ->1@NOPE",
@@ -195,7 +195,7 @@ var c03Letters = []string{
 	"ADD v6 q@D ->1", "ADD v6 q@D ->2", "ADD v6 q@D ->1@V", "DELETE v6 q@D",
 	"ADD mpls 100@D ->1", "ADD mpls 100@D ->2", "ADD mpls 100@D ->1@V", "DELETE mpls 100@D",
 	"ADD nhg1@D {1}", "ADD nhg1@D {2}", "ADD nhg1@D {1,2}", "REPLACE nhg1@D {2}", "DELETE nhg1@D",
-	"ADD nhg2@D {1}", "ADD nhg2@D {2}", "DELETE nhg2@D", "ADD nhg1@V {1}", "DELETE nhg1@V",
+	"ADD nhg2@D {1}", "ADD nhg2@D {2}", "ADD nhg2@D {2} backup 1", "DELETE nhg2@D", "ADD nhg1@V {1}", "DELETE nhg1@V",
 	"ADD nh1@D a", "DELETE nh1@D", "ADD nh2@D", "DELETE nh2@D", "ADD nh1@V", "DELETE nh1@V",
 	"FLUSH D", "FLUSH V", "FLUSH all",
 }
